@@ -73,10 +73,11 @@ theorem lookup_base_none {es : Entries} {base : Key} (hwfe : WFEntries es) :
   simp at this
 
 mutual
-  theorem getNode_spec : ∀ (n : Node) (path key : Key), WFNode n → NoSingleFF n.entries →
-      getNode n key = lookup (path ++ key) (iterNode path n)
-    | .mk pfx .nil, path, key, hwf, _ => by simp [WFNode, WFRow] at hwf
-    | .mk pfx (.leaf l suf v r), path, key, hwf, hnoff => by
+  theorem getNode_spec : ∀ (eon : Bool) (n : Node) (path key : Key), WFNode n →
+      (eon = false → NoSingleFF n.entries) →
+      getNode eon n key = lookup (path ++ key) (iterNode path n)
+    | eon, .mk pfx .nil, path, key, hwf, _ => by simp [WFNode, WFRow] at hwf
+    | eon, .mk pfx (.leaf l suf v r), path, key, hwf, hnoff => by
       unfold WFNode WFRow at hwf
       rw [getNode]
       simp only [iterNode]
@@ -92,19 +93,21 @@ mutual
           · subst hl hsuf
             simp [iterEntries, hnil, labelTerminator, lookup]
           · have hwfe : WFEntries (.leaf l suf v r) := by unfold WFEntries; exact ⟨hle, habove, hr⟩
-            have hnot : ¬(l = 255 ∧ suf = []) := by
-              rintro ⟨rfl, rfl⟩
-              have := WFEntries.ff_last hr habove rfl
-              cases r with
-              | nil => exact hnoff v rfl
-              | leaf _ _ _ _ => simp [Entries.isNil] at this
-              | child _ _ _ => simp [Entries.isNil] at this
             rw [lookup_base_none hwfe]
             by_cases h1 : l = 255
-            · have h2 : suf ≠ [] := fun h2 => hnot ⟨h1, h2⟩
-              cases suf with
-              | nil => exact absurd rfl h2
+            · cases suf with
               | cons _ _ => simp
+              | nil =>
+                subst h1
+                have hrnil := WFEntries.ff_last hr habove rfl
+                cases eon with
+                | true => simp [hrnil]
+                | false =>
+                  exfalso
+                  cases r with
+                  | nil => exact hnoff rfl v rfl
+                  | leaf _ _ _ _ => simp [Entries.isNil] at hrnil
+                  | child _ _ _ => simp [Entries.isNil] at hrnil
             · simp [labelTerminator, h1]
         | cons c rest =>
           have hT : path ++ (pfx ++ c :: rest) = (path ++ pfx) ++ c :: rest := by simp
@@ -114,7 +117,7 @@ mutual
           · subst hl hsuf
             simp only [labelTerminator, beq_self_eq_true, hnil, Bool.not_false, Bool.and_self, if_true,
               iterEntries, List.append_nil]
-            rw [getEntries_spec r (path ++ pfx) c rest hr]
+            rw [getEntries_spec eon r (path ++ pfx) c rest hr]
             rw [lookup_cons_ne]
             intro e
             have := congrArg List.length e
@@ -125,10 +128,10 @@ mutual
               · have := WFEntries.ff_last hr habove h1
                 simp [this]
               · simp [labelTerminator, h1]
-            rw [← getEntries_spec (.leaf l suf v r) (path ++ pfx) c rest hwfe]
+            rw [← getEntries_spec eon (.leaf l suf v r) (path ++ pfx) c rest hwfe]
             simp only [hcond, getEntries]
             simp
-    | .mk pfx (.child l n r), path, key, hwf, _ => by
+    | eon, .mk pfx (.child l n r), path, key, hwf, _ => by
       unfold WFNode WFRow at hwf
       have hwfe : WFEntries (.child l n r) := by unfold WFEntries; exact hwf
       rw [getNode]
@@ -152,13 +155,13 @@ mutual
             · have := WFEntries.ff_last hwf.2.2.2.2 hwf.2.1 h1
               simp [this]
             · simp [labelTerminator, h1]
-          rw [← getEntries_spec (.child l n r) (path ++ pfx) c rest hwfe]
+          rw [← getEntries_spec eon (.child l n r) (path ++ pfx) c rest hwfe]
           simp only [hcond, getEntries]
           simp
-  theorem getEntries_spec : ∀ (es : Entries) (base : Key) (c : Nat) (rest : Key), WFEntries es →
-      getEntries es c rest = lookup (base ++ c :: rest) (iterEntries base es)
-    | .nil, base, c, rest, _ => by simp [getEntries, iterEntries, lookup]
-    | .leaf l suf v r, base, c, rest, hwf => by
+  theorem getEntries_spec : ∀ (eon : Bool) (es : Entries) (base : Key) (c : Nat) (rest : Key), WFEntries es →
+      getEntries eon es c rest = lookup (base ++ c :: rest) (iterEntries base es)
+    | eon, .nil, base, c, rest, _ => by simp [getEntries, iterEntries, lookup]
+    | eon, .leaf l suf v r, base, c, rest, hwf => by
       rw [iterEntries_leaf_real hwf]
       have hwf' := hwf
       unfold WFEntries at hwf'
@@ -181,9 +184,9 @@ mutual
           have := List.append_cancel_left e
           simp at this
           exact hlc this.1
-        rw [lookup_cons_ne this, ← getEntries_spec r base c rest hr]
+        rw [lookup_cons_ne this, ← getEntries_spec eon r base c rest hr]
         simp [hlc]
-    | .child l n r, base, c, rest, hwf => by
+    | eon, .child l n r, base, c, rest, hwf => by
       have hwf' := hwf
       unfold WFEntries at hwf'
       obtain ⟨hle, habove, hn, hlen, hr⟩ := hwf'
@@ -192,9 +195,9 @@ mutual
       by_cases hlc : l = c
       · subst hlc
         have hT : base ++ l :: rest = (base ++ [l]) ++ rest := by simp
-        rw [hT, ← getNode_spec n (base ++ [l]) rest hn (noSingleFF_of_length hlen)]
+        rw [hT, ← getNode_spec eon n (base ++ [l]) rest hn (fun _ => noSingleFF_of_length hlen)]
         simp only [beq_self_eq_true, if_true]
-        cases hg : getNode n rest with
+        cases hg : getNode eon n rest with
         | some v => rfl
         | none =>
           simp only
@@ -210,7 +213,7 @@ mutual
         rw [hA]
         have : (l == c) = false := by simpa using hlc
         simp only [this]
-        exact getEntries_spec r base c rest hr
+        exact getEntries_spec eon r base c rest hr
 end
 
 end LinVerif.Lemmas.C20
